@@ -8,6 +8,10 @@ Theorem c14_in_span_sound : forall n gens v c, in_span n gens v = Some c ->
   length c = length gens /\ lincomb n c gens = v.
 Proof. exact in_span_sound. Qed.
 
+Theorem c14_in_span_with_sound : forall basis n gens v c, in_span_with basis n gens v = Some c ->
+  length c = length gens /\ lincomb n c gens = v.
+Proof. exact in_span_with_sound. Qed.
+
 (* P-forall, every code: the naive decoder's answer has minimum weight among all operators of
    length 2n with the given syndrome *)
 Theorem c14_naive_min_weight : forall stabs n s r, naive stabs n s = Some r ->
@@ -50,6 +54,6 @@ Example c14_ex :
   /\ rank [[true;true;false;false]; [false;true;true;false]; [true;false;true;false]] = 2.
 Proof. vm_compute. repeat split; reflexivity. Qed.
 
-Print Assumptions c14_in_span_sound. Print Assumptions c14_naive_min_weight. Print Assumptions c14_naive_corrects.
+Print Assumptions c14_in_span_sound. Print Assumptions c14_in_span_with_sound. Print Assumptions c14_naive_min_weight. Print Assumptions c14_naive_corrects.
 Print Assumptions c14_weight_subadditive. Print Assumptions c14_distance_by_search.
 Print Assumptions c14_five_qubit. Print Assumptions c14_steane.
